@@ -31,7 +31,7 @@ def stToList (s : St) : List Int :=
    s.nonfinalFrame, s.bitrateBps, s.toMono, s.lbrrCoded, s.allowBwSwitch, s.inWBmode, s.opusCanSwitch, s.silkUseDtx]
 
 def frameOfList (l : List Int) : Option FrameOr :=
-  if l.length = 18 then some { aValid := l.getD 0 0, activity := l.getD 1 0, silkBitRateIn := l.getD 2 0, silkRet := l.getD 3 0, nBytes := l.getD 4 0, isr := l.getD 5 0, switchReady := l.getD 6 0, allowBw := l.getD 7 0, inWB := l.getD 8 0, tellA := l.getD 9 0, tellB := l.getD 10 0, tellC := l.getD 11 0, tellD := l.getD 12 0, tellE := l.getD 13 0, stripTo := l.getD 14 0, celtRed1 := l.getD 15 0, celtMain := l.getD 16 0, celtRed2 := l.getD 17 0 }
+  if l.length = 20 then some { aValid := l.getD 0 0, activity := l.getD 1 0, silkBitRateIn := l.getD 2 0, silkRet := l.getD 3 0, nBytes := l.getD 4 0, isr := l.getD 5 0, switchReady := l.getD 6 0, allowBw := l.getD 7 0, inWB := l.getD 8 0, tellA := l.getD 9 0, tellB := l.getD 10 0, tellC := l.getD 11 0, tellD := l.getD 12 0, tellE := l.getD 13 0, stripTo := l.getD 14 0, celtRed1 := l.getD 15 0, celtMain := l.getD 16 0, celtRed2 := l.getD 17 0, used1 := l.getD 18 0, used2 := l.getD 19 0 }
   else none
 
 def framesOf (kv : List (String × String)) (n : Nat) : Option (List FrameOr) :=
@@ -68,19 +68,19 @@ def handle : List String → String
   | ["silkrate", rate, bw, f20, vbr, fec, ch] =>
     match parseInt rate, parseInt bw, parseInt f20, parseInt vbr, parseInt fec, parseInt ch with
     | some rate, some bw, some f20, some vbr, some fec, some ch =>
-      toString (computeSilkRateForHybrid rate bw f20 vbr fec ch)
+      s!"v={computeSilkRateForHybrid rate bw f20 vbr fec ch}"
     | _, _, _, _, _, _ => "bad-op"
   | ["gentoc", mode, fr, bw, ch] =>
     match parseInt mode, parseInt fr, parseInt bw, parseInt ch with
-    | some mode, some fr, some bw, some ch => toString (genToc mode fr bw ch)
+    | some mode, some fr, some bw, some ch => s!"v={genToc mode fr bw ch}"
     | _, _, _, _ => "bad-op"
   | ["fss", a, v, fs] =>
     match parseInt a, parseInt v, parseInt fs with
-    | some a, some v, some fs => toString (frameSizeSelect a v fs)
+    | some a, some v, some fs => s!"v={frameSizeSelect a v fs}"
     | _, _, _ => "bad-op"
   | ["mscurr", nb, fs, frame, maxb, tot, s] =>
     match parseInt nb, parseInt fs, parseInt frame, parseInt maxb, parseInt tot, parseInt s with
-    | some nb, some fs, some frame, some maxb, some tot, some s => toString (msCurrMax nb fs frame maxb tot s)
+    | some nb, some fs, some frame, some maxb, some tot, some s => s!"v={msCurrMax nb fs frame maxb tot s}"
     | _, _, _, _, _, _ => "bad-op"
   | _ => "bad-op"
 
